@@ -218,10 +218,36 @@ pub fn run(ctx: &mut Ctx) {
     let cases = ctx.pick(20_000u32, 200_000u32) / ctx.nshards;
     let strat = (mux::mux_history(3, 30, 0.02), 1u8..4).prop_map(|(case, rounds)| AfterEnd { case, rounds });
     ctx.run_prop(strat, cases, |ctx, c| after_end(ctx, c));
+    // ---- sinks handed over just below 4 GiB, so that chunk offsets cross and stay beyond 2^32
+    // (the sparse stream and the histories of C13's family (a) and of its long recordings); here
+    // only the absence of panics is judged, everything else about these outputs is C13's ----
+    ctx.stage("sink-beyond-4GiB");
+    let cases = ctx.pick(6_000u32, 60_000u32) / ctx.nshards;
+    ctx.run_prop(super::c13::family_a(), cases, |ctx, c| beyond(ctx, c));
+    for (i, n) in [40u32, 700].into_iter().enumerate() {
+        if !ctx.enter(i as u64) {
+            continue;
+        }
+        let tracks: Vec<MTrack> = (0..2u32).map(|k| super::c13::track_pub(k, 10)).collect();
+        let ops: Vec<super::c13::BOp> = (0..n).map(|j| super::c13::BOp { track: 1 + j % 2, size: 3 + j % 5, fill: 1 + (j % 200) as u8, dur: 10, cts: 0, sync: true }).collect();
+        let c = super::c13::Case { family: "c17:recording-behind-2^32".into(), start_pos: (1u64 << 32) - 100 + i as u64 * 300, timescale: 1000, tracks, ops, brand: i as u8 };
+        ctx.pre_case(&c);
+        let res = beyond(ctx, &c);
+        ctx.judge(&c, res);
+    }
     ctx.stage("after-io-error");
     let cases = ctx.pick(40_000u32, 400_000u32) / ctx.nshards;
     let strat = (mux::mux_history(3, 40, 0.02), any::<u16>(), any::<bool>()).prop_map(|(case, frac, zero)| AfterFault { case, frac, zero });
     ctx.run_prop(strat, cases, |ctx, c| after_fault(ctx, c));
+}
+
+/// C13's mux-and-read-back run with only panics kept as failures
+pub fn beyond(ctx: &mut Ctx, c: &super::c13::Case) -> Check {
+    ctx.count("sink:handed-over-just-below-or-beyond-2^32");
+    match super::c13::oracle(ctx, c) {
+        Err(f) if f.sig.starts_with("panic@") => Err(f),
+        _ => Ok(()),
+    }
 }
 
 #[derive(Clone, Debug, serde::Serialize, serde::Deserialize)]
@@ -287,6 +313,10 @@ pub fn replay(ctx: &mut Ctx, stage: &str, case: &Value) -> Check {
     if stage == "calls-after-write_end" {
         let c: AfterEnd = serde_json::from_value(case.clone()).map_err(|e| Failure::new("replay:bad-case", e.to_string()))?;
         return after_end(ctx, &c);
+    }
+    if stage == "sink-beyond-4GiB" {
+        let c: super::c13::Case = serde_json::from_value(case.clone()).map_err(|e| Failure::new("replay:bad-case", e.to_string()))?;
+        return beyond(ctx, &c);
     }
     if stage == "after-io-error" {
         let c: AfterFault = serde_json::from_value(case.clone()).map_err(|e| Failure::new("replay:bad-case", e.to_string()))?;
